@@ -38,7 +38,7 @@ pub enum Event {
     /// "eof" or "err:<Display of PayloadError>"
     BodyEnd { handler: usize, kind: String },
     PayloadDropped { handler: usize },
-    Responded { handler: usize, out_len: usize, failed: bool },
+    Responded { handler: usize, out_len: usize, failed: bool, consumed: usize },
     ChunkPulled { handler: usize, data: Vec<u8> },
     /// "end" or "err"
     BodyDone { handler: usize, kind: String },
@@ -60,6 +60,29 @@ pub struct Env {
     io: Rc<RefCell<IoState>>,
     now_ms: RefCell<u64>,
     signal: RefCell<(bool, Option<Waker>)>,
+    readers: RefCell<Vec<ExtReader>>,
+}
+
+/// A request-body reader that lives in its own task: polled by the harness only when its own
+/// waker fired.
+struct ExtReader {
+    fut: Option<Pin<Box<dyn Future<Output = ()>>>>,
+    wake: WakeCounter,
+    started: bool,
+}
+
+struct FlagWait(Rc<RefCell<(bool, Option<Waker>)>>);
+impl Future for FlagWait {
+    type Output = ();
+    fn poll(self: Pin<&mut Self>, cx: &mut Context<'_>) -> Poll<()> {
+        let mut s = self.0.borrow_mut();
+        if s.0 {
+            Poll::Ready(())
+        } else {
+            s.1 = Some(cx.waker().clone());
+            Poll::Pending
+        }
+    }
 }
 
 impl Env {
@@ -360,9 +383,12 @@ async fn handle(env: Rc<Env>, programs: Rc<Vec<HandlerProgram>>, mut req: Reques
             payload.take();
             env.push(Event::PayloadDropped { handler: k });
         }
-        PayloadPlan::ReadAllThenRespond => {
+        PayloadPlan::ReadAllThenRespond | PayloadPlan::ReadAllSlowlyThenRespond => {
             let mut pl = payload.take().unwrap();
             loop {
+                if prog.payload == PayloadPlan::ReadAllSlowlyThenRespond {
+                    Gate::new(&env).await;
+                }
                 match std::future::poll_fn(|cx| Pin::new(&mut pl).poll_next(cx)).await {
                     Some(Ok(b)) => env.push(Event::BodyRead { handler: k, data: b.to_vec() }),
                     Some(Err(e)) => {
@@ -404,10 +430,45 @@ async fn handle(env: Rc<Env>, programs: Rc<Vec<HandlerProgram>>, mut req: Reques
             keep = payload.take();
             read_first_in_body = true;
         }
+        PayloadPlan::ExternalReaderThenRespond | PayloadPlan::RespondWithExternalReader => {
+            let mut pl = payload.take().unwrap();
+            let flag: Rc<RefCell<(bool, Option<Waker>)>> = Rc::new(RefCell::new((false, None)));
+            let (env2, flag2) = (env.clone(), flag.clone());
+            let fut = async move {
+                loop {
+                    Gate::new(&env2).await;
+                    match std::future::poll_fn(|cx| Pin::new(&mut pl).poll_next(cx)).await {
+                        Some(Ok(b)) => env2.push(Event::BodyRead { handler: k, data: b.to_vec() }),
+                        Some(Err(e)) => {
+                            env2.push(Event::BodyEnd { handler: k, kind: format!("err:{e}") });
+                            break;
+                        }
+                        None => {
+                            env2.push(Event::BodyEnd { handler: k, kind: "eof".into() });
+                            break;
+                        }
+                    }
+                }
+                drop(pl);
+                env2.push(Event::PayloadDropped { handler: k });
+                let w = {
+                    let mut f = flag2.borrow_mut();
+                    f.0 = true;
+                    f.1.take()
+                };
+                if let Some(w) = w {
+                    w.wake();
+                }
+            };
+            env.readers.borrow_mut().push(ExtReader { fut: Some(Box::pin(fut)), wake: WakeCounter::new(), started: false });
+            if prog.payload == PayloadPlan::ExternalReaderThenRespond {
+                FlagWait(flag).await;
+            }
+        }
     }
     if prog.fail {
         if let Some(e) = read_err {
-            env.push(Event::Responded { handler: k, out_len: env.io.borrow().out.len(), failed: true });
+            env.push(Event::Responded { handler: k, out_len: env.io.borrow().out.len(), failed: true, consumed: env.io.borrow().rpos });
             return Err(e.into());
         }
     }
@@ -421,7 +482,7 @@ async fn handle(env: Rc<Env>, programs: Rc<Vec<HandlerProgram>>, mut req: Reques
     }
     let body = build_body(&env, k, &prog.body, keep, read_first_in_body);
     let resp = rb.body(body).map_into_boxed_body();
-    env.push(Event::Responded { handler: k, out_len: env.io.borrow().out.len(), failed: false });
+    env.push(Event::Responded { handler: k, out_len: env.io.borrow().out.len(), failed: false, consumed: env.io.borrow().rpos });
     Ok(resp)
 }
 
@@ -476,6 +537,7 @@ pub struct Peaks {
 enum Ev {
     Poll,
     Gate(usize),
+    Reader(usize),
     Writable,
     Readable,
     Arrive(usize),
@@ -537,6 +599,7 @@ async fn drive(sc: &Scenario, chooser: Rc<RefCell<Chooser>>) -> Exec {
         io: io.clone(),
         now_ms: RefCell::new(0),
         signal: RefCell::new((false, None)),
+        readers: RefCell::new(vec![]),
     });
     let programs = Rc::new(sc.programs.clone());
 
@@ -618,6 +681,14 @@ async fn drive(sc: &Scenario, chooser: Rc<RefCell<Chooser>>) -> Exec {
             evs.push(Ev::Poll);
         }
         {
+            let readers = env.readers.borrow();
+            for (i, r) in readers.iter().enumerate() {
+                if r.fut.is_some() && (!r.started || r.wake.is_woken()) {
+                    evs.push(Ev::Reader(i));
+                }
+            }
+        }
+        {
             let gates = env.gates.borrow();
             for (i, g) in gates.iter().enumerate() {
                 if !g.open {
@@ -683,6 +754,7 @@ async fn drive(sc: &Scenario, chooser: Rc<RefCell<Chooser>>) -> Exec {
             if sc.env.probe && done.is_none() {
                 probes += 1;
                 let before = progress_tuple(&env, false);
+                let readers_woken_before: usize = env.readers.borrow().iter().map(|r| r.wake.count()).sum();
                 let mut cx = Context::from_waker(&waker);
                 let r = conn.as_mut().poll(&mut cx);
                 if let Poll::Ready(res) = r {
@@ -690,7 +762,13 @@ async fn drive(sc: &Scenario, chooser: Rc<RefCell<Chooser>>) -> Exec {
                     done_at = Some(now_ms);
                 }
                 let after = progress_tuple(&env, done.is_some());
-                if before.0 != after.0 || before.1 != after.1 || before.2 != after.2 || before.4 != after.4 || before.7 != after.7 {
+                let readers_woken_after: usize = env.readers.borrow().iter().map(|r| r.wake.count()).sum();
+                if readers_woken_after != readers_woken_before {
+                    probe_changes.push(format!(
+                        "wake-less poll at quiescence (step {steps}, t={now_ms}ms) made progress: it woke a request-body reader task (reader {}->{}), out {}->{}, consumed {}->{}, log {}->{}, done {}->{}",
+                        readers_woken_before, readers_woken_after, before.0, after.0, before.1, after.1, before.2, after.2, before.7, after.7
+                    ));
+                } else if before.0 != after.0 || before.1 != after.1 || before.2 != after.2 || before.4 != after.4 || before.7 != after.7 {
                     probe_changes.push(format!(
                         "wake-less poll at quiescence (step {steps}, t={now_ms}ms) made progress: out {}->{}, consumed {}->{}, log {}->{}, shutdown {}->{}, done {}->{}",
                         before.0, after.0, before.1, after.1, before.2, after.2, before.4, after.4, before.7, after.7
@@ -761,6 +839,21 @@ async fn drive(sc: &Scenario, chooser: Rc<RefCell<Chooser>>) -> Exec {
                     spin_polls += 1;
                 } else {
                     noprogress_polls = 0;
+                }
+            }
+            Ev::Reader(i) => {
+                noprogress_polls = 0;
+                // take the future out so that the reader may push new readers/gates while polled
+                let (mut fut, waker) = {
+                    let mut rs = env.readers.borrow_mut();
+                    rs[i].started = true;
+                    rs[i].wake.take();
+                    (rs[i].fut.take().unwrap(), rs[i].wake.waker())
+                };
+                let mut cx = Context::from_waker(&waker);
+                let r = fut.as_mut().poll(&mut cx);
+                if r.is_pending() {
+                    env.readers.borrow_mut()[i].fut = Some(fut);
                 }
             }
             Ev::Gate(i) => {
@@ -856,6 +949,8 @@ async fn drive(sc: &Scenario, chooser: Rc<RefCell<Chooser>>) -> Exec {
     let gates_total = env.gates.borrow().len();
     drop(conn);
     env.held.borrow_mut().clear();
+    let rs: Vec<ExtReader> = std::mem::take(&mut *env.readers.borrow_mut());
+    drop(rs);
     let mut snap = snap;
     snap.dropped = io.borrow().dropped;
     let log = env.log.borrow().clone();
